@@ -428,6 +428,31 @@ impl Prop for C05 {
         let (maxf, maxr) = if big { (24, 6) } else { (12, 4) };
         let strat = *rng.pick(&["n", "s", "p", "b"]);
         let shape = rng.below(100);
+        if _i % (if tier == Tier::Quick { 300 } else { 3000 }) == 11 {
+            // more facts than one work unit of the parallel rule join (chunks of >= 1000 matching facts per premise):
+            // every fact of every chunk, including the last partial one, must produce its bindings
+            stats.hit("shape_large_fact_set");
+            stats.hit(&format!("strategy_{}", strat));
+            let ne = rng.range(40, 60);
+            let mut vals: Vec<String> = (0..ne).map(|_| "e".to_string()).collect();
+            vals.extend(["e".to_string(), "e".to_string(), "e".to_string()]);
+            let u = Uni { ents: (0..ne as u32).collect(), low: (ne as u32..ne as u32 + 3).collect(), up: vec![], vals };
+            let n = *rng.pick(&[1001usize, 1500, 1999, 2000, 2001, 2600]) + rng.below(3);
+            let mut set = std::collections::BTreeSet::new();
+            while set.len() < n.min(ne * ne) {
+                set.insert((rng.below(ne) as u32, u.low[0], rng.below(ne) as u32));
+            }
+            let mut facts: Vec<String> = set.iter().map(|(a, b, c)| format!("F:{},{},{}", a, b, c)).collect();
+            for _ in 0..rng.range(0, 5) {
+                facts.push(format!("F:{},{},{}", rng.below(ne), u.low[1], rng.below(ne)));
+            }
+            let mut rules = vec![format!("R:v0.c{}.v1/-/-/v1.c{}.v0", u.low[0], u.low[1])];
+            if strat != "p" && rng.chance(1, 2) {
+                stats.hit("large_with_join_rule");
+                rules.push(format!("R:v0.c{}.v1+v1.c{}.v2/-/-/v0.c{}.v2", u.low[1], u.low[0], u.low[2]));
+            }
+            return assemble(rng, strat, &u, rules, facts);
+        }
         if shape < 30 {
             // the fragment every strategy claims to handle: 1-2 premises, constant predicates, no filters
             stats.hit("shape_core");
